@@ -158,11 +158,12 @@ Definition step_spec (p : parent) (o : hop) (p' : parent) : Prop :=
   | HSetIndent s =>
     p_items p' = p_items p /\ p_indent_by p' = p_indent_by p
     /\ p_indent p' = match p_indent p with Some _ => Some s | None => None end
+  | HDeepCopy => p_items p' = p_items p /\ p_indent p' = p_indent p /\ p_indent_by p' = p_indent_by p
   end.
 
 Theorem hstep_spec p o : step_spec p o (fst (hstep p o)).
 Proof.
-  destruct o as [k|it|n it|k| | |s|s]; cbn [hstep step_spec fst].
+  destruct o as [k|it|n it|k| | |s|s|]; cbn [hstep step_spec fst].
   - destruct (has_key k (p_items p)) eqn:H.
     + apply setitem_existing, H.
     + apply (meta_rule p k H).
@@ -175,6 +176,7 @@ Proof.
     + split; [apply del_last_meta_subseq|split; reflexivity].
     + split; [apply subseq_refl|split; reflexivity].
   - split; [apply filter_subseq|split; reflexivity].
+  - repeat split.
   - repeat split.
   - repeat split.
 Qed.
@@ -213,4 +215,22 @@ Theorem assigned_is_current : forall ops p s,
 Proof.
   intros ops p s. rewrite !hrun_app. cbn [hrun hstep fst p_indent_by p_indent]. split; [reflexivity|].
   destruct (p_indent (hrun p ops)); [reflexivity|congruence].
+Qed.
+
+(* a deep copy anywhere in a history changes nothing the rule reads: the default rule under the copy uses
+   the original's parent indent and the indent_by configured on the original *)
+Theorem copy_keeps_rule : forall ops p k, let q := hrun p ops in
+  metas (p_items q) = [] ->
+  p_items (hrun p (ops ++ [HDeepCopy; HSetItem k])) = p_items q ++ [IMeta (parent_indent q ++ p_indent_by q) k]
+  /\ p_indent_by (hrun p (ops ++ [HDeepCopy])) = p_indent_by q
+  /\ p_indent (hrun p (ops ++ [HDeepCopy])) = p_indent q.
+Proof.
+  intros ops p k q Hm.
+  assert (Hc : hrun p (ops ++ [HDeepCopy]) = q).
+  { rewrite hrun_app. fold q. cbn. destruct q; reflexivity. }
+  split; [|rewrite Hc; split; reflexivity].
+  replace (ops ++ [HDeepCopy; HSetItem k]) with ((ops ++ [HDeepCopy]) ++ [HSetItem k])
+    by (rewrite <- app_assoc; reflexivity).
+  pose proof (default_is_current (ops ++ [HDeepCopy]) p k) as H. cbn zeta in H. rewrite Hc in H.
+  apply H, Hm.
 Qed.
